@@ -3,6 +3,9 @@ C01 — every cell is the nearest-generator region of its generator.
 Property theorems; helper lemmas and proofs in `MVoro/Proofs/VorSet.lean`.
 -/
 import MVoro.Proofs.VorSet
+import MVoro.Proofs.ClipFeasible
+import MVoro.Proofs.StarInvariant
+import MVoro.Proofs.StarReach
 
 namespace MVoro.C01
 open MVoro.VorSet
@@ -41,5 +44,33 @@ example : run (0 : ℝ) (fun _ => 1) (Set.Icc (-1) 1) [1, 3] = {x ∈ Set.Icc (-
     simp only [Set.mem_Icc] at this
     simp only [Metric.mem_closedBall, Real.dist_eq, sub_zero, abs_le]
     exact this
+
+/-! ### T01.4 (partial): what `clip_by_plane` creates -/
+
+/-- **T01.4a** the vertex `Vertex::from_dual(cur, next, p)` created for a boundary edge is the point where the old edge
+between the kept vertex `w` and the removed vertex `v` crosses the new plane: `w + t (v - w)` with `t ∈ [0, 1)`. -/
+theorem clip_new_vertex_is_edge_crossing : type_of% @ClipFeasible.new_vertex_on_segment := @ClipFeasible.new_vertex_on_segment
+
+/-- **T01.4b** "every vertex satisfies every half space of the cell" is an invariant of clipping, for all planes and
+points (kept vertices by the decision that kept them, created vertices because they lie on an old edge). -/
+theorem clip_preserves_feasibility : type_of% @ClipFeasible.feasible_preserved := @ClipFeasible.feasible_preserved
+
+/-- **T01.4c** all vertex invariants of an exact clip together: for a closed surface (C18) of vertices that lie on their
+planes, are positively oriented (the precondition of the exact predicate, C10) and satisfy every half space, and exact
+decisions, every kept vertex and every created vertex `(x, y, p)` (one per boundary edge of the removed region) is good again
+with respect to the enlarged plane set — for every configuration over any ordered field. -/
+theorem clip_preserves_all_vertex_invariants : type_of% @Star.clip_invariant := @Star.clip_invariant
+
+/-- **T01.4d** the start cell of `ConvexCell::init` (any box, any generator strictly inside, walls as bisectors of the mirror
+images) is a closed surface of good vertices. -/
+theorem init_cell_good : type_of% @Star.init_good := @Star.init_good
+
+/-- **T01.4e** every cell reachable from the start cell by exact clips whose boundary reconstruction succeeded is a closed
+surface (C18) of vertices that lie on their planes, are positively oriented (C10) and satisfy every half space of the cell. -/
+theorem reachable_cells_good : type_of% @Star.reachable_from_init_good := @Star.reachable_from_init_good
+
+/- **T01.4 partial** — NOT proved: a closed, consistently oriented surface (C18) whose vertices lie on their planes (C19)
+and satisfy all half spaces (T01.4b) is the boundary of the intersection of the half spaces.  The exact oracle certifies it
+per cell at run time (`Oracle.checkCell`, brute-force rebuild). -/
 
 end MVoro.C01
